@@ -316,3 +316,23 @@ def search_violation(c, rng, budget=3000, size=4, fn=None):
         if tried >= budget:
             break
     return None, None, tried, valid
+
+
+class TimeLimit(Exception):
+    pass
+
+
+def time_limited(fn, seconds, *args, **kw):
+    """runs fn(*args) under a wall-clock limit (SIGALRM; checks run in the main thread of their own process): a decoder that loops over a
+    corrupted length field must end as a finding with an input, not as a hung check"""
+    import signal
+
+    def on_alarm(signum, frame):
+        raise TimeLimit("no result within %s s" % seconds)
+    old = signal.signal(signal.SIGALRM, on_alarm)
+    signal.setitimer(signal.ITIMER_REAL, seconds)
+    try:
+        return fn(*args, **kw)
+    finally:
+        signal.setitimer(signal.ITIMER_REAL, 0)
+        signal.signal(signal.SIGALRM, old)
